@@ -24,7 +24,7 @@ func init() {
 			"nothing asserted about capacity of returned slices"},
 		Flavours: releaseAnd386,
 		Required: []string{"join/w=1", "join/w=2", "join/w=4", "join/w=8", "join/w=16", "join/w=32", "join/w=64", "join/empty", "join/long-list",
-			"slice/empty", "slice/aligned", "slice/unaligned", "slice/multiword", "slice/to-end", "slice/sub-word"},
+			"slice/empty", "slice/aligned", "slice/unaligned", "slice/multiword", "slice/to-end", "slice/sub-word", "slice/bitmap>=2^31-bits"},
 		Families: func(c *mon.Config) []mon.Family {
 			reps := c.Pick(6, 1000)
 			return []mon.Family{
@@ -37,6 +37,7 @@ func init() {
 				{Name: "join", Env: 4, N: len(c14Widths) * 131 * reps, Run: c14Join},
 				{Name: "slice-all", N: c.Pick(900, 150000), Run: c14SliceAll},
 				{Name: "slice-zoo", Env: 6, N: c.Pick(4000, 1000000), Run: c14SliceZoo},
+				{Name: "slice-huge-bitmap", N: 1, Run: c14SliceHuge},
 				{Name: "join-long", Env: 3, N: 7 * c.Pick(2, 100), Run: c14JoinLong},
 			}
 		},
@@ -295,6 +296,48 @@ func c14SliceZoo(w *mon.W, idx int) {
 	w.Sample(func() interface{} {
 		return mon.D{"call": "Slice, sampled windows", "nwords": nw, "first_words": truncW(orig, 3)}
 	})
+}
+
+// c14SliceHuge: windows at the very top of a bitmap of 2^25 words (2^31 bits, the largest the int32 API addresses;
+// untouched pages cost no memory) and of 2^25-1 words, with the last word empty, sparse and full.
+func c14SliceHuge(w *mon.W, idx int) {
+	big := make([]uint64, 1<<25)
+	const top = 1<<31 - 1
+	for _, lastWord := range []uint64{0, 1 << 63, 1, ^uint64(0)} {
+		big[1<<25-1] = lastWord
+		big[1<<25-2] = 0x8000000000000001
+		big[1<<25-3] = 0
+		for _, nw := range []int{1 << 25, 1<<25 - 1} {
+			words := big[:nw]
+			end := 64 * int64(nw)
+			if end > top {
+				end = top // "to" is an int32: the last addressable end
+			}
+			for _, ft := range [][2]int64{{end - 1, end}, {end - 63, end}, {end - 64, end}, {end - 130, end}, {end - 200, end - 64}, {end - 129, end - 1}, {end, end}} {
+				from, to := int(ft[0]), int(ft[1])
+				w.Op, w.A, w.B = "Slice(huge)", int64(from), int64(to)
+				got := bitmap.Slice(words, int32(from), int32(to))
+				w.Eval(1)
+				n := to - from
+				if len(got) != (n+63)/64 {
+					w.Fail("Slice/len", mon.D{"nwords": nw, "from": from, "to": to, "got_words": len(got), "expected_words": (n + 63) / 64})
+					return
+				}
+				for j := 0; j < 64*len(got); j++ {
+					var e uint64
+					if j < n {
+						e = bitAt(words, from+j)
+					}
+					if bitAt(got, j) != e {
+						w.Fail("Slice/bits", mon.D{"nwords": nw, "from": from, "to": to, "bit": j, "got": bitAt(got, j), "expected": e, "last_word": fmt.Sprintf("%#x", lastWord)})
+						return
+					}
+				}
+			}
+		}
+	}
+	w.Bucket("slice/bitmap>=2^31-bits")
+	w.Distinct(gen.Hash64(0x511ce, 1))
 }
 
 // c14JoinLong: lists of 5000..70000 values (element index * width beyond 2^16 and 2^21 bits).
